@@ -807,6 +807,132 @@ func miscRules(c *Ctx, a *flAgg) {
 				wrongLow = append(wrongLow, L)
 			}
 		}
+		// the digit test: for a one-character argument the accepting path holds
+		// exactly for '0'..'9' (decided by evaluating its literals for all 256 bytes)
+		{
+			x := &SPE{Fn: f, MaxVisits: 3}
+			x.Decide = func(atom *Expr, _ *pathState) (bool, bool) {
+				if atom.Op != OpBin || len(atom.Args) != 2 {
+					return false, false
+				}
+				a, ok1 := evalLen(atom.Args[0], 1)
+				b, ok2 := evalLen(atom.Args[1], 1)
+				if !ok1 || !ok2 {
+					return false, false
+				}
+				switch atom.Tok {
+				case token.LSS:
+					return a < b, true
+				case token.EQL:
+					return a == b, true
+				}
+				return false, false
+			}
+			x.Explore()
+			elem := param + "[0]"
+			var evalB func(e *Expr, v int64) (int64, bool)
+			evalB = func(e *Expr, v int64) (int64, bool) {
+				if e == nil {
+					return 0, false
+				}
+				if k, ok := e.intConst(); ok {
+					return k, true
+				}
+				if e.String() == elem {
+					return v, true
+				}
+				switch e.Op {
+				case OpConvert:
+					if len(e.Args) == 1 {
+						return evalB(e.Args[0], v)
+					}
+				case OpBin:
+					if len(e.Args) == 2 && (e.Tok == token.ADD || e.Tok == token.SUB) {
+						l, ok1 := evalB(e.Args[0], v)
+						r, ok2 := evalB(e.Args[1], v)
+						if !ok1 || !ok2 {
+							return 0, false
+						}
+						res := l + r
+						if e.Tok == token.SUB {
+							res = l - r
+						}
+						if e.Type != nil {
+							if bt, ok := e.Type.Underlying().(*types.Basic); ok && (bt.Kind() == types.Uint8) {
+								res &= 0xff
+							}
+						}
+						return res, true
+					}
+				}
+				return 0, false
+			}
+			accept := map[int64]bool{}
+			decided := true
+			nAcc := 0
+			for _, p := range x.Paths {
+				if p.Term != "return" || len(p.Results) != 2 {
+					continue
+				}
+				if v, isC := p.Results[1].boolConst(); !isC || !v {
+					continue
+				}
+				nAcc++
+				for v := int64(0); v < 256; v++ {
+					holds := true
+					for _, lt := range p.Lits {
+						at := lt.Atom
+						if !strings.Contains(at.String(), elem) {
+							continue
+						}
+						if at.Op != OpBin || len(at.Args) != 2 {
+							decided = false
+							continue
+						}
+						l, ok1 := evalB(at.Args[0], v)
+						r, ok2 := evalB(at.Args[1], v)
+						if !ok1 || !ok2 {
+							decided = false
+							continue
+						}
+						var tv bool
+						switch at.Tok {
+						case token.LSS:
+							tv = l < r
+						case token.EQL:
+							tv = l == r
+						default:
+							decided = false
+							continue
+						}
+						if tv != lt.Pol {
+							holds = false
+						}
+					}
+					if holds {
+						accept[v] = true
+					}
+				}
+			}
+			var wrong []string
+			for v := int64(0); v < 256; v++ {
+				isDigit := v >= '0' && v <= '9'
+				if accept[v] != isDigit {
+					wrong = append(wrong, fmt.Sprintf("%q", rune(v)))
+				}
+			}
+			switch {
+			case nAcc == 0 || !decided:
+				a.und("PARSE-atou", "atou/digits", "the digit test of atou was not recognised", f.Pos())
+			case len(wrong) == 0:
+				a.ok("PARSE-atou", "atou/digits", "a character is accepted iff it is one of '0'..'9' (all 256 byte values evaluated)", f.Pos())
+			default:
+				if len(wrong) > 6 {
+					wrong = append(wrong[:6], "...")
+				}
+				a.bad("PARSE-atou", "atou/digits", "the digit test is wrong for the bytes "+strings.Join(wrong, " ")+": a non-digit is folded into the number, or a digit refused", f.Pos())
+			}
+		}
 		if failNonZero {
 			a.bad("PARSE-atou", "atou/refusal-value", "a refused number is returned with a value other than 0: a caller that ignores the flag (the sleep minutes of a goroutine header) takes that value", f.Pos())
 		} else {
